@@ -11,7 +11,29 @@ pub struct GenOpts {
     pub plain: bool, // canonical spelling only (no case/radix games)
 }
 
+thread_local! { static LABEL_STEM: std::cell::RefCell<String> = std::cell::RefCell::new(String::new()); }
+
 fn label_name(rng: &mut Rng) -> String {
+    // families of names with a long common stem: names that differ only after 8, 16, 24 or 31 characters,
+    // by one appended character, or in their last character (a table keyed by a truncated, hashed or
+    // otherwise lossy form of the name confuses them)
+    if rng.chance(1, 6) {
+        let stem = LABEL_STEM.with(|st| {
+            let mut st = st.borrow_mut();
+            if st.is_empty() || rng.chance(1, 8) {
+                let len = *rng.pick(&[7usize, 8, 15, 16, 17, 23, 24, 31, 32, 40]);
+                let body = b"abcdefghijklmnopqtuvwxyz_0123456789ABCDEFGHIJKLMNOQTUVWXYZ";
+                let mut t = String::from("c");
+                while t.len() < len {
+                    t.push(*rng.pick(body) as char);
+                }
+                *st = t;
+            }
+            st.clone()
+        });
+        let tail = *rng.pick(&["", "a", "b", "_", "0", "1", "ab", "ba", "_hi", "_lo", "x9", "X9"]);
+        return format!("{}{}", stem, tail);
+    }
     // must not start with R, PC or SP in any case
     let first = b"abcdefghijklmnoqtuvwxyzABCDEFGHIJKLMNOQTUVWXYZ_";
     let rest = b"abcdefghijklmnopqrstuvwxyzABCDEFGHIJKLMNOPQRSTUVWXYZ0123456789_";
